@@ -69,7 +69,7 @@ func runC03(c *harness.Ctx) {
 	var probes []*probe
 	var acceptedBlob []byte // a request the server accepted earlier in this run (for replays)
 
-	kinds := []string{"silent", "random", "truncated", "extended", "bitflip", "wrong-hour", "wrong-key", "wrong-nodeid", "low-order", "replay", "short-pad", "drip-then-garbage"}
+	kinds := []string{"silent", "random", "truncated", "extended", "bitflip", "wrong-hour", "wrong-key", "wrong-nodeid", "low-order", "replay", "short-pad", "drip-then-garbage", "reflect-bridge-reply"}
 	mk := func(i int) *probe {
 		name := fmt.Sprintf("p%d", i)
 		l := c.Net.NewLink(name, fmt.Sprintf("s%d", i))
@@ -165,6 +165,15 @@ func runC03(c *harness.Ctx) {
 				// pauses carry it across the next hour boundary
 				off := []int64{-3, -2, 3, 4}[arg2%4]
 				msg = obfs4ref.ClientRequest(rid, eph, padB, nowHour()+off)
+				if startOff == 59*time.Minute+50*time.Second && arg3%2 == 1 {
+					// accepted ten seconds before the hour turns, stamped with the
+					// previous hour - still acceptable at that moment - and sent
+					// only once the hour has turned: by the time the bridge can
+					// look at it, it is two hours old
+					msg = obfs4ref.ClientRequest(rid, eph, padB, nowHour()-1)
+					c.S.Sleep(15 * time.Second)
+					c.Feature("probe-stale-by-the-time-it-is-sent")
+				}
 			case "wrong-key":
 				w := rid
 				var priv [32]byte
@@ -224,6 +233,39 @@ func runC03(c *harness.Ctx) {
 					acceptedBlob = valid
 				}
 				msg = acceptedBlob
+			case "reflect-bridge-reply":
+				// OBSERVATION, not judged (DESIGN.md 9.7): the bridge's own reply
+				// Y|AUTH|P_S|M_S|MAC_S has the layout and the keying of a client
+				// handshake with X := Y and padding AUTH|P_S.  Somebody who has
+				// seen one genuine connection can send that reply back to the
+				// bridge within the hour window; by the letter of the property it
+				// *is* a client handshake valid for this identity and hour that
+				// was never presented before.
+				sl := c.Net.NewLink(name+"x", fmt.Sprintf("s%dx", i))
+				var reply []byte
+				sl.B.OnWrite = func(b []byte) {
+					if reply == nil {
+						reply = append([]byte(nil), b...)
+					}
+				}
+				okc := make(chan bool, 1)
+				c.S.Go(fmt.Sprintf("s%dx/accept", i), func() {
+					conn, err := factory.WrapConn(sl.B)
+					if err == nil {
+						conn.Close()
+					}
+					okc <- err == nil
+				})
+				sl.A.Write(valid)
+				if !<-okc {
+					return
+				}
+				sl.A.Close()
+				if len(reply) < 45+96+45 {
+					msg = nil // too little padding for a client handshake: nothing sent
+				} else {
+					msg = reply[:len(reply)-45] // without the inline seed frame
+				}
 			case "short-pad":
 				short := make([]byte, arg1%obfs4ref.ClientMinPad)
 				msg = obfs4ref.ClientRequest(rid, eph, short, nowHour())
@@ -265,7 +307,7 @@ func runC03(c *harness.Ctx) {
 			buf := make([]byte, 64)
 			for {
 				n, err := l.A.Read(buf)
-				if n > 0 && !ending && p.kind != "extended" {
+				if n > 0 && !ending && p.kind != "extended" && p.kind != "reflect-bridge-reply" {
 					c.Violate("C03/server-talked", "prober (%s) received %d bytes from the server", p.kind, n)
 					return
 				}
@@ -333,6 +375,14 @@ func runC03(c *harness.Ctx) {
 	var delay time.Duration = -1
 	for i, p := range probes {
 		b := p.link.B
+		if p.kind == "reflect-bridge-reply" {
+			if p.accepted || len(b.Writes) != 0 {
+				c.Feature("observation-reflected-bridge-reply-answered")
+			} else {
+				c.Feature("observation-reflected-bridge-reply-ignored")
+			}
+			continue
+		}
 		if p.kind == "extended" && (p.accepted || len(b.Writes) != 0) {
 			// ... which requires that one of its reads ended exactly there: if the
 			// read that brought the end of the handshake also brought trailing
